@@ -28,7 +28,14 @@ def gen(ctx):
                 init[rng.randrange(N)] *= -1
         else:
             init = [rng.choice([-1, 1]) for _ in range(N)]
-        yield dict(kind="hop", P=P, init=init, T=rng.randint(1, 3 * N), seed=rng.randrange(10 ** 6))
+        yield dict(kind="hop", P=P, init=init, T=rng.randint(1, 3 * N), seed=rng.randrange(10 ** 6),
+                   pdtype=rng.choice(["int64", "int8", "int16", "int32", "list"]), sdtype=rng.choice(["int32", "int8", "int64", "int16"]))
+    for N in ([129, 131] if ctx.tier == "quick" else [129, 131, 255, 257, 301]):
+        # sizes at which N-1 no longer fits an int8 / the weighted input of a stored pattern is +-(N-1)
+        p = [rng.choice([-1, 1]) for _ in range(N)]
+        for start in (p, [-x for x in p]):
+            for dts in (("int8", "int8"), ("int64", "int32"), ("int16", "int8")):
+                yield dict(kind="hop", P=[p], init=list(start), T=N // 4, seed=rng.randrange(10 ** 6), pdtype=dts[0], sdtype=dts[1])
     for _ in range(ctx.n(100, 1000)):
         N = rng.choice([1, 2, 3, 4, 5, 8, 9])
         yield dict(kind="train", P=[[rng.choice([-1, 1]) for _ in range(N)] for _ in range(rng.randint(1, 5))])
@@ -41,6 +48,8 @@ def order_of(c):
 def line(c):
     if c["kind"] == "train":
         return "hopfield_train P=" + fmt.mat(c["P"])
+    if len(c["init"]) > 40:
+        return None          # large nets: oracle only (the list-based model is cubic here)
     return "hopfield hist=%s P=%s order=%s T=%d" % (fmt.mat([c["init"]]), fmt.mat(c["P"]), fmt.vec(order_of(c)), c["T"])
 
 
@@ -56,8 +65,9 @@ def run(c):
     try:
         N = len(c["init"])
         net = cpl.HopfieldNet(N)
-        net.train(np.array(c["P"]))
-        ca = np.array([c["init"]], dtype=np.int32)
+        pd = c.get("pdtype", "int64")
+        net.train(c["P"] if pd == "list" else np.array(c["P"], dtype=pd))
+        ca = np.array([c["init"]], dtype=c.get("sdtype", "int32"))
         res = cpl.evolve(ca, timesteps=c["T"], apply_rule=net.apply_rule, r=net.r)
         return net, res, fs
     finally:
